@@ -201,6 +201,13 @@ class LazyEvaluatedKernelTensor(LinearOperator):
             dim_index = _noop_index
 
         # Get the indices of x1 and x2 that matter for the kernel
+        # A batch dimension that is only broadcast (missing, or of size 1 against a larger one) must be expanded
+        # before it is indexed: slicing a size-1 dimension does not raise, it silently selects the wrong elements.
+        if len(batch_indices) and not all(ind == slice(None, None, None) for ind in batch_indices if isinstance(ind, slice)):
+            if x1.shape[:-2] != batch_shape:
+                x1 = x1.expand(*batch_shape, *x1.shape[-2:])
+            if x2.shape[:-2] != batch_shape:
+                x2 = x2.expand(*batch_shape, *x2.shape[-2:])
         # Call x1[*batch_indices, row_index, :]
         try:
             x1 = x1[(*batch_indices, row_index, dim_index)]
